@@ -1,7 +1,7 @@
 SPECIFICATION Spec
 CONSTANTS
-  Scenarios <- DbgScen
-  Acts <- DbgActs
+  Scenarios <- Scen_all
+  Acts <- ActsAll
   MaxDepth = 1
   MaxFields = 3
   AllowAlias = "guard"
@@ -9,6 +9,9 @@ CONSTANTS
   ScaleFs <- ScaleFs_all
   RotKs <- RotKs_all
   RotRefs <- RotRefs_all
+  RotPairs <- RotPairs_all
+  Rich = TRUE
+  LastFresh = FALSE
   PadSpecs <- Pad_all
   Masks <- Masks_all
   Nums <- Nums_all
@@ -20,3 +23,16 @@ INVARIANT DF_SubregionsWellFormed
 INVARIANT DF_OwnValidity
 INVARIANT DF_Labels
 INVARIANT DF_RootsLive
+PROPERTY DF_RejectUnchanged
+PROPERTY DF_OperandsUnchanged
+PROPERTY DF_ValidityRule
+PROPERTY DF_SetValid
+PROPERTY DF_Update
+PROPERTY DF_Cellwise
+PROPERTY DF_PositionsKept
+PROPERTY DF_CellAligned
+PROPERTY DF_SelSubregions
+PROPERTY DF_Persist
+PROPERTY DF_InplaceEqualsCopy
+PROPERTY DF_InplaceReturnsSelf
+PROPERTY DF_AffineExact
